@@ -12,15 +12,18 @@ THEOREMS = [("C17", ["C17_truncation_general", "C17_truncation_prefix", "C17_syn
                      "C17_compressed_count_lowered", "C17_compressed_trailing_garbage", "C17_compressed_cut_stream", "C17_compressed_output_genuine", "C17_compressed_values_genuine",
                      "C17_snappy_count_lowered", "C17_snappy_bad_crc", "C17_snappy_short_block", "C17_decoder_model_damage",
                      "C17_de_prefix_determinism", "C17_compressed_values_genuine_de", "C17_header_truncation", "C17_header_truncation_chunked",
-                     "C17_chunked_truncation_prefix", "C17_corruption_no_panic", "C17_reader_give_up_only", "C17_reader_give_up_any"])]
+                     "C17_chunked_truncation_prefix", "C17_corruption_no_panic", "C17_reader_give_up_only", "C17_reader_give_up_any",
+                     "C17_compressed_file_truncated", "C17_compressed_file_count_changed", "C17_compressed_file_payload_replaced", "C17_snappy_file_truncated",
+                     "C17_compressed_reader_total", "C17_empty_datum_rejected"])]
 PROOF_FILES = ["proofs/ContainerReadProofs.v", "proofs/ContainerProofs.v", "proofs/ContainerHeaderProofs.v", "proofs/ContainerChunkProofs.v", "proofs/DePrefixProofs.v",
-               "proofs/ContainerDamageProofs.v", "proofs/DecodeLoopProofs.v", "proofs/DecodeLoopDe.v", "proofs/DecodeLoopDePrefix.v", "props/C17.v"]
+               "proofs/ContainerDamageProofs.v", "proofs/DecodeLoopProofs.v", "proofs/DecodeLoopDe.v", "proofs/DecodeLoopDePrefix.v", "proofs/ContainerCodecProofs.v", "proofs/ContainerCodecDamage.v", "props/C17.v"]
 TRUSTED_BASE = [
     "Coq 8.16.1 kernel; no axioms (Print Assumptions: closed)",
     "hand-written model/Container.v of reader/mod.rs + de/read/take.rs (NotInBlock / InBlock / Broken, per-block limit, sync check, error once then end of stream), null codec; tied by the correspondence run (item sequences of successive deserialize_next calls on damaged files, slice and chunked readers)",
     "hand-written model/DecodeLoop.v of reader/decompression.rs (BufReader over an abstract streaming decoder over Take, the end-of-block check, the snappy block with its CRC), tied to the crate by hook H4 (hooks/H4.diff): every end-of-block check the crate makes on the damaged files is replayed through the extracted model (same decoder request, same decision); the decoders are ABSTRACT (DecodeLoop.stream_decoder_contract, validated on the reads the crate made; not proved of the libraries); values: De.de on the decompressed bytes (abstraction stated in DecodeLoop.v)",
 ]
 ASSUMPTIONS = [
+    "proved (ContainerCodecDamage.v, model/ContainerCodec.v): WHOLE FILES with compressed blocks written by the writer model (any block codec, any session), read through the slice reader or a BufRead following any chunk plan, for every decoder meeting the contract (on cut streams: stream_codec_cut_ok), capacity >= 1, read policy: cut at ANY offset => inside the header an error, behind it the written metadata and a prefix of the written values then a non-give-up end, everything + end of stream only at/behind the end (C17_compressed_file_truncated; snappy: C17_snappy_file_truncated); the count of one block lowered / raised => the values before, the first c of the block, then an error (C17_compressed_file_count_changed; raised needs a root whose datums are not empty: C17_empty_datum_rejected, refuted for null / empty records); the payload of one block replaced by any bytes agreeing with the stream under the contract => only written values, in order (C17_compressed_file_payload_replaced); the model reader never gives up (C17_compressed_reader_total). Hypotheses shown necessary by computed counterexamples (ToyDamage.*)",
     "proved (DecodeLoopProofs.v) for every decoder meeting stream_decoder_contract, every BufReader capacity >= 1, chunking, read policy: count lowered => the first values then Err 'decompressed data left' (C17_compressed_count_lowered); bytes behind the stream inside the declared size => Err (C17_compressed_trailing_garbage; needs clause (iv), which multi-frame zstandard does not meet when the extra bytes are themselves a frame: observed and reported, the crate then reports the extra data or -- for a frame of no data -- accepts); declared size too small => Err provided the 16 bytes then found in place of the sync marker are not the marker (C17_compressed_cut_stream); in all cases the decoder's output is a prefix of the written data (C17_compressed_output_genuine: byte level; C17_compressed_values_genuine: every VALUE yielded was written, in order, for any value decoder that is prefix-deterministic -- vdec_prefix_det, which is NOT proved of De.de here: for the crate's deserializer the value-level claim is decided on the crate); snappy: count lowered, wrong CRC, size < 4 (C17_snappy_*)",
     "proved (slice reader, null codec): truncation at ANY offset of ANY byte string yields the same items as the longer input until it stops (C17_truncation_general), for written files a prefix of the written values then only error/end (C17_truncation_prefix); sync mismatch, data left in block, size beyond input, count too small are errors; an unrecoverable error is reported once, then end of stream (C17_once)",
     "'count larger than the contents' is an error only when the missing datums cannot be decoded from nothing: with a schema whose values are empty (null) any count is accepted by construction of the format (count_too_large_null_schema_accepted)",
